@@ -37,6 +37,15 @@ def run(ctx):
             continue
         blob, roots, desc = r
         enc.append((blob.hex(), dag, roots, desc))
+    # the smallest bags under every width combination and magic
+    for tiny in ([(-1, "", [])], [(-1, "1", [])], [(-1, "", []), (-1, "", [0])]):
+        for size in (1, 2, 3, 4):
+            for off in range(1, 9):
+                for magic in ("reach", "idx", "idxcrc"):
+                    for idx in ((False, True) if magic == "reach" else (True,)):
+                        r = boc.foreign_encode(rng, tiny, None, True, force={"size": size, "off": off, "magic": magic, "idx": idx})
+                        if r:
+                            enc.append((r[0].hex(), tiny, r[1], r[2]))
     hexes = [e[0] for e in enc]
     impl, model = ctx.correspond("foreign-valid", hexes, boc.py_parse, lambda h: f"boc_parse {h}", lambda h: len(h) > 40)
     spec = core.run_driver([f"s_boc {h}" for h in hexes])
